@@ -16,7 +16,10 @@ dynamic system is a labelled transition system (`Goat.LTS`): the threads are the
 runner goroutine per accepted task and one goroutine per try block; a schedule is any list of
 labels, a label whose thread cannot move is skipped.  Every observable action appends one event to
 the trace kept in the state; the events are exactly the lines of the `trace` protocol
-(`Driver/Pipeline.lean`, `harness/cmd/pipeline`).
+(`Driver/Pipeline.lean`, `harness/cmd/pipeline`).  The try goroutine records the outcome of each
+`Runner.Run` of a handler (`hacc` / `hrej`); the harness sees them through a recording wrapper around
+the `PipRunner` service.  The last part of the file is the model under a STEERING policy of the
+harness's gate controller (`sysS`, `sysC`): one handler of a try block held in its first command.
 
 Atomicity choices (documented deviations, all on the side of *fewer* instants, never other values):
 * releasing the completion latch, closing the task scope and the `done` event are one step;
@@ -364,7 +367,10 @@ looks *back*, so the property is prefix closed; it is decidable, and `accepts` d
 (`Props/C14.accepts_iff`).  The clauses are one-directional where the implementation is: task
 scopes share their parent's context, so a task may report an error although nothing of its own
 failed — a `done … fail` only needs *some* cause in its context (or in the root context, whose
-failure makes the manager refuse submissions), never a cause of its own. -/
+failure makes the manager refuse submissions), never a cause of its own.
+The clauses about the handlers of a try block that HAVE to run are timed (`handlerFate`): a handler
+that did not start is excused only by a cause of failure recorded BEFORE the event that sealed its
+fate, never by a failure that shows up somewhere later in the trace. -/
 
 def hasDone (pre : List Ev) (t : Nat) : Prop := Ev.done t true ∈ pre ∨ Ev.done t false ∈ pre
 def hasRet (pre : List Ev) (t i : Nat) : Prop := Ev.ret t i true ∈ pre ∨ Ev.ret t i false ∈ pre
